@@ -43,6 +43,8 @@ type ScriptSub struct {
 	EndAfterScript bool
 	// FailSubscribes: that many Subscribe calls are rejected (ErrScriptSubscribe) before the first one is accepted
 	FailSubscribes int
+	// OnSubscribe, when set, runs inside every Subscribe call (argument: number of earlier calls)
+	OnSubscribe func(call int)
 	// CtxFor, when set, derives the context of a delivered copy from the subscription context
 	// (a transport that preserves or decorates message contexts)
 	CtxFor func(ctx context.Context, m *message.Message) context.Context
@@ -68,6 +70,9 @@ func (s *ScriptSub) String() string { return "hx.ScriptSub(" + s.Name + ")" }
 
 func (s *ScriptSub) Subscribe(ctx context.Context, topic string) (<-chan *message.Message, error) {
 	s.SubscribeCalls++
+	if s.OnSubscribe != nil {
+		s.OnSubscribe(s.SubscribeCalls - 1)
+	}
 	if s.closed {
 		return nil, errors.New("script subscriber closed")
 	}
@@ -171,6 +176,7 @@ const (
 	PubPanic
 	PubErrAfter    // the inner publisher accepted the messages, then an error is reported
 	PubErrCanceled // nothing accepted; the error wraps context.Canceled (e.g. a publisher whose own context ended)
+	PubErrRootless // nothing accepted; the error follows the causer convention and has nothing underneath (Cause() == nil)
 )
 
 // PubCall records one Publish call.
@@ -214,6 +220,8 @@ func (p *ScriptPub) Publish(topic string, msgs ...*message.Message) error {
 		return ErrScriptPub
 	case PubErrCanceled:
 		return fmt.Errorf("scripted publish failure: %w", context.Canceled)
+	case PubErrRootless:
+		return &rootlessError{step: "publish"}
 	case PubPanic:
 		panic("scripted publisher panic")
 	}
